@@ -2,7 +2,7 @@ import TH.Safe
 /-! Line-protocol driver for thread interleavings (slice T, C16).
 
     X <id> <p|o>                     variant of the description-context test: pinned (lock held by anybody) / owner
-    T <tid> <act>*                   B (beginBuild) | R<f> (record) | E (endBuild) | A (the describing function raises) | F<f> (callFn) | D<d> (callDag) | X<d> (callDag through an executor object)
+    T <tid> <act>*                   B (beginBuild) | R<f> (record) | E (endBuild) | A (the describing function raises) | F<f> (callFn) | D<d> (callDag) | X<d> (callDag through an executor object) | C<d> (a built DAG reconfigured: callDag)
     S <tid>*                         the schedule
     E
     -> <id> <tid> <obs>*             U | REF | BUILT:<f>,<f>… | FAILED | FN<f> | DAG<d>
@@ -17,6 +17,9 @@ def parseAct (s : String) : Option Act :=
   else if s.startsWith "F" then (s.drop 1).toNat?.map .callFn
   else if s.startsWith "D" then (s.drop 1).toNat?.map .callDag
   else if s.startsWith "X" then (s.drop 1).toNat?.map .callDag     -- the DAG run through an executor object: a DAG run
+  -- a built DAG reconfigured (config_from_dict): its nodes are re-created OUTSIDE any description, which consults the same
+  -- "is this thread describing?" test as a call does: a use of a built DAG outside a description
+  else if s.startsWith "C" then (s.drop 1).toNat?.map .callDag
   else none
 
 def showObs : Obs → String
